@@ -322,6 +322,70 @@ static void polys(bool thorough)
     R.sample("{\"coefficients\":[1,-2,3],\"x\":2,\"eval\":9,\"evar_of_reversed\":9}");
 }
 
+// ---------------------------------------------------------------- evaluation again after the coefficients changed in place
+// straight-line code through opaque pointers at -O2: an evaluator reads the coefficients (the trajectory object) as they are at the
+// moment of the call; a declaration that promises independence from memory would let the compiler reuse the earlier value
+static __attribute__((noinline)) void eval_twice(a_real *c, a_size n, a_trajpoly3 *t3, a_trajpoly5 *t5, a_trajpoly7 *t7, a_real x, a_real *out)
+{
+    for (int st = 0; st < 2; ++st)
+    {
+        a_real *o = out + st * 14;
+        o[0] = a_poly_eval(c, n, x); o[1] = a_poly_evar(c, n, x); o[2] = a_poly_eval_(c, c + n, x); o[3] = a_poly_evar_(c, c + n, x);
+        o[4] = a_trajpoly3_pos(t3, x); o[5] = a_trajpoly3_vel(t3, x); o[6] = a_trajpoly3_acc(t3, x);
+        o[7] = a_trajpoly5_pos(t5, x); o[8] = a_trajpoly5_vel(t5, x); o[9] = a_trajpoly5_acc(t5, x);
+        o[10] = a_trajpoly7_pos(t7, x); o[11] = a_trajpoly7_vel(t7, x); o[12] = a_trajpoly7_acc(t7, x); o[13] = a_trajpoly7_jer(t7, x);
+        if (st == 0)
+        {
+            c[0] += 3; c[n - 1] -= 2;
+            for (int i = 0; i < 4; ++i) { t3->c[i] += (a_real)(i + 1); }
+            for (int i = 0; i < 6; ++i) { t5->c[i] += (a_real)(i + 1); }
+            for (int i = 0; i < 8; ++i) { t7->c[i] += (a_real)(i + 1); }
+        }
+    }
+}
+static void reread()
+{
+    if (R.shard.idx != 0) { return; }
+    uint64_t n = 0;
+    a_real c[6] = {1, -2, 3, 1, 0, 2};
+    a_trajpoly3 t3; a_trajpoly5 t5; a_trajpoly7 t7;
+    for (int i = 0; i < 4; ++i) { t3.c[i] = (a_real)(i % 3) - 1; }
+    for (int i = 0; i < 6; ++i) { t5.c[i] = (a_real)(i % 3) - 1; }
+    for (int i = 0; i < 8; ++i) { t7.c[i] = (a_real)(i % 3) - 1; }
+    double c0[6], k3[4], k5[6], k7[8];
+    for (int i = 0; i < 6; ++i) { c0[i] = (double)c[i]; }
+    for (int i = 0; i < 4; ++i) { k3[i] = (double)t3.c[i]; }
+    for (int i = 0; i < 6; ++i) { k5[i] = (double)t5.c[i]; }
+    for (int i = 0; i < 8; ++i) { k7[i] = (double)t7.c[i]; }
+    a_real out[28];
+    a_real *volatile vc = c;
+    a_trajpoly3 *volatile v3 = &t3; a_trajpoly5 *volatile v5 = &t5; a_trajpoly7 *volatile v7 = &t7;
+    const double x = 2;
+    eval_twice(vc, 6, v3, v5, v7, (a_real)x, out);
+    auto horner = [](const double *k, int m, double xx, int der) { // d^der/dx^der of sum k[i] x^i, low order first; small integers: exact
+        double v = 0;
+        for (int i = m - 1; i >= der; --i) { double f = 1; for (int j = 0; j < der; ++j) { f *= (double)(i - j); } v = v * xx + f * k[i]; }
+        return v;
+    };
+    for (int st = 0; st < 2; ++st)
+    {
+        if (st) { c0[0] += 3; c0[5] -= 2; for (int i = 0; i < 4; ++i) { k3[i] += i + 1; } for (int i = 0; i < 6; ++i) { k5[i] += i + 1; } for (int i = 0; i < 8; ++i) { k7[i] += i + 1; } }
+        double rev[6];
+        for (int i = 0; i < 6; ++i) { rev[i] = c0[5 - i]; }
+        double want[14] = {horner(c0, 6, x, 0), horner(rev, 6, x, 0), horner(c0, 6, x, 0), horner(rev, 6, x, 0),
+                           horner(k3, 4, x, 0), horner(k3, 4, x, 1), horner(k3, 4, x, 2), horner(k5, 6, x, 0), horner(k5, 6, x, 1), horner(k5, 6, x, 2),
+                           horner(k7, 8, x, 0), horner(k7, 8, x, 1), horner(k7, 8, x, 2), horner(k7, 8, x, 3)};
+        static const char *FN[14] = {"a_poly_eval", "a_poly_evar", "a_poly_eval_", "a_poly_evar_", "a_trajpoly3_pos", "a_trajpoly3_vel", "a_trajpoly3_acc", "a_trajpoly5_pos", "a_trajpoly5_vel", "a_trajpoly5_acc",
+                                     "a_trajpoly7_pos", "a_trajpoly7_vel", "a_trajpoly7_acc", "a_trajpoly7_jer"};
+        for (int f = 0; f < 14; ++f)
+        {
+            ++n;
+            if ((double)out[st * 14 + f] != want[f]) { R.viol(std::string(FN[f]) + "|reread", std::string(FN[f]) + (st ? " called again with the same pointer after the coefficients changed in place" : " on integer coefficients at x = 2") + " returned " + num((double)out[st * 14 + f]) + ", the coefficients give " + num(want[f]), "{\"edit\":" + std::to_string(st) + "}"); }
+        }
+    }
+    R.part("polynomial and trajectory evaluators called again with the same pointers after the coefficients changed in place (straight-line code at -O2)", n, n);
+}
+
 int main(int argc, char **argv)
 {
     vx::Args args(argc, argv);
@@ -330,6 +394,7 @@ int main(int argc, char **argv)
     return vx::run_contained([&] {
         trajectories(thorough);
         polys(thorough);
+        reread();
         std::string w = "{\"coefficient_err_eps\":" + num(worst[0]) + ",\"final_err_eps\":" + num(worst[1]) + ",\"derivative_err_eps\":" + num(worst[2]) + "}";
         vx::info("worst_observed", w);
         {
